@@ -3,6 +3,7 @@
 mod c06;
 mod c07;
 mod c08;
+mod c19;
 mod ledger;
 
 fn main() {
@@ -17,6 +18,7 @@ fn main() {
         "c06" => c06::run(&args[2..]),
         "c07" => c07::run(&args[2..]),
         "c08" => c08::run(&args[2..]),
+        "c19" => c19::run(&args[2..]),
         "c01" | "c02" | "c03" | "ledger" => ledger::run(&args[2..]),
         other => {
             eprintln!("unknown family {other}");
